@@ -14,6 +14,11 @@
                                                   `setdata.absent` → False; else Set.load(obj, {item}) and, when the item is not
                                                   linked, `absent.add(item)`), `containsRev` (no SetData yet, the other side is
                                                   fully loaded and answers)
+    SetInstance.is_empty                       -> `isEmpty`   (fully loaded → `not setdata`; non-empty → False; cached count → `not count`;
+                                                  else `SELECT .. LIMIT 1`: the row it returns — an observation — is put into the
+                                                  SetData, no row makes the collection fully loaded with count 0)
+    SetInstance.__nonzero__                    -> `nonzero`   (non-empty → True, else Set.load(obj) and `bool(setdata)`)
+    SetInstance.select / filter / order_by ..  -> `select`    (a query over the items: the implicit flush, then the database rows)
     SessionCache.flush / _calc_modified_m2m    -> `flush`  (the pending changes reach the database; `added = removed = None`)
   `None` and the empty set are not distinguished for `added` / `removed`: the code only ever truth-tests them.
 
@@ -64,6 +69,9 @@ inductive Op where
   | flush
   | contains (x : Item)     -- `item in obj.coll` on a many-to-many collection
   | containsRev (x : Item)  -- the same, answered by the fully loaded collection of the item (obj has no SetData yet)
+  | isEmpty (probe : Option Item)   -- `obj.coll.is_empty()`; `probe` = the row `SELECT .. LIMIT 1` returned, if the query ran
+  | nonzero                 -- `bool(obj.coll)`
+  | select                  -- `obj.coll.select()[:]` (length of the result)
 deriving Repr, DecidableEq
 
 inductive Err where
@@ -128,6 +136,17 @@ def containsSd (c : Coll) (x : Item) : SetData × Bool :=
       else loadAll c
     if x ∈ sd1.items then (sd1, true) else ({ sd1 with absent := ins x sd1.absent }, false)
 
+/-- what a flush does to the collection: the pending changes reach the database; `_calc_modified_m2m` visits only collections
+    registered in `cache.modified_collections` (for the others added / removed are empty anyway) -/
+def flushColl (cfg : Cfg) (c : Coll) : Coll :=
+  let db' := (c.db.filter fun y => decide (y ∉ c.sd.removed)) ++ c.sd.added
+  let reset := !cfg.m2m || cfg.owning || cfg.fixFlush
+  { sd := if reset then { c.sd with added := [], removed := [], absent := if c.sd.dirty then [] else c.sd.absent, dirty := false }
+          else { c.sd with dirty := false }, db := db' }
+
+/-- `is_empty()` has to ask the database -/
+def askEmpty (sd : SetData) : Bool := !sd.fully && sd.items.isEmpty && sd.count.isNone
+
 /-- one call; the `Option Int` is the value a read returns.  Loads done by `add` / `remove` (`Set.load(obj, items)`)
     arrive as preceding `seen` / `loadAll` operations. -/
 def step (cfg : Cfg) (c : Coll) : Op → Except Err (Coll × Option Int)
@@ -160,13 +179,21 @@ def step (cfg : Cfg) (c : Coll) : Op → Except Err (Coll × Option Int)
     | none =>
       let n : Int := (c.db.length : Int) + c.sd.added.length - c.sd.removed.length
       .ok ({ c with sd := { c.sd with count := some n } }, some n)
-  | .flush =>
-    let db' := (c.db.filter fun y => decide (y ∉ c.sd.removed)) ++ c.sd.added
-    let reset := !cfg.m2m || cfg.owning || cfg.fixFlush
-    -- only collections registered in `cache.modified_collections` are visited by `_calc_modified_m2m` (for the others added / removed are empty anyway)
-    .ok ({ sd := if reset then { c.sd with added := [], removed := [], absent := if c.sd.dirty then [] else c.sd.absent, dirty := false }
-                else { c.sd with dirty := false }, db := db' }, none)
+  | .flush => .ok (flushColl cfg c, none)
   | .contains x => .ok ({ c with sd := (containsSd c x).1 }, some (b2i (containsSd c x).2))
+  | .isEmpty probe =>
+    if c.sd.fully then .ok (c, some (b2i c.sd.items.isEmpty))
+    else if !c.sd.items.isEmpty then .ok (c, some 0)
+    else match c.sd.count with
+      | some n => .ok (c, some (b2i (n == 0)))
+      | none =>
+        match probe with
+        | some x => .ok ({ c with sd := { c.sd with items := ins x c.sd.items } }, some 0)       -- setdata.add(loaded_item): `if setdata: return False`
+        | none => .ok ({ c with sd := { c.sd with fully := true, absent := [], count := some 0 } }, some 1)
+  | .nonzero =>
+    if !c.sd.items.isEmpty then .ok (c, some 1)
+    else .ok ({ c with sd := loadAll c }, some (b2i (!(loadAll c).items.isEmpty)))
+  | .select => .ok (flushColl cfg c, some (flushColl cfg c).db.length)
   | .containsRev x =>
     .ok (c, some (b2i ((decide (x ∈ c.db) && !decide (x ∈ c.sd.removed)) || decide (x ∈ c.sd.added))))
 
@@ -175,6 +202,8 @@ def step (cfg : Cfg) (c : Coll) : Op → Except Err (Coll × Option Int)
 /-- what a read must return, given what the program has -/
 def specRead (l : List Item) : Op → Int
   | .contains x | .containsRev x => b2i (decide (x ∈ l))
+  | .isEmpty _ => b2i l.isEmpty
+  | .nonzero => b2i (!l.isEmpty)
   | _ => l.length
 
 def specStep (l : List Item) : Op → List Item
@@ -190,12 +219,14 @@ def OpValid (c : Coll) (l : List Item) : Op → Prop
   | .revRemove x => x ∈ l ∧ x ∈ c.sd.items
   | .add x => x ∈ l → x ∈ c.sd.items
   | .remove x => x ∈ l → x ∈ c.sd.items
+  | .isEmpty probe =>       -- the query runs after the implicit flush, and `probe` is what it returned
+    askEmpty c.sd = true → c.sd.removed = [] ∧ (match probe with | some x => x ∈ c.db | none => c.db = [])
   | _ => True
 
 /-- the two places where the code as found goes wrong are avoided, or repaired -/
 def OpSafe (cfg : Cfg) : Op → Prop
   | .remove _ => cfg.m2m = true ∨ cfg.fixRemove = true
-  | .flush => cfg.m2m = false ∨ cfg.owning = true ∨ cfg.fixFlush = true
+  | .flush | .select => cfg.m2m = false ∨ cfg.owning = true ∨ cfg.fixFlush = true
   | _ => True
 
 instance (cfg : Cfg) (op : Op) : Decidable (OpSafe cfg op) := by
